@@ -24,7 +24,7 @@ ASSUMPTIONS = [
     "rectangle slack is an objective-space shift, ellipsoid slack a per-facet allowance (as the property states)",
 ]
 N = {"quick": 1200, "thorough": 24000}
-REQUIRE = {"quick": {"decisive_true": 300, "decisive_false": 300, "ell_events": 300, "rect_events": 500}}
+REQUIRE = {"quick": {"decisive_true": 300, "decisive_false": 300, "ell_events": 300, "rect_events": 500, "history_events": 60}}
 TIMEOUT = {"quick": 900, "thorough": 3600}
 
 
@@ -135,6 +135,42 @@ def ell_case(mon, rng, label, order, m):
             mon.sample({**case, "oracle_margin": [lo, hi], "answer": bool(ans)})
 
 
+def history_case(mon, rng):
+    """the same region OBJECTS are used across calls and updated in between (iterative intersection and plain replacement):
+    the answer must reflect the bounds the object holds now"""
+    from vopy.confidence_region import RectangularConfidenceRegion
+
+    m = int(rng.choice([2, 3]))
+    label, order = gen.random_order(rng, m)
+    W = order.ordering_cone.W
+    it = bool(rng.random() < 0.6)
+    r1 = RectangularConfidenceRegion(m, intersect_iteratively=it)
+    r2 = RectangularConfidenceRegion(m, intersect_iteratively=bool(rng.random() < 0.5))
+    scale = gen.rand_scale(rng)
+    c1 = rng.normal(size=m) * scale
+    c2 = c1 + rng.normal(size=m) * scale * 2
+    for step in range(int(rng.integers(3, 8))):
+        for r, c in ((r1, c1), (r2, c2)):
+            if step == 0 or rng.random() < 0.6:
+                mean = c + rng.normal(size=m) * scale * 0.2
+                std = scale * 10 ** rng.uniform(-1.5, 0.3, size=m) * (0.6 ** step)
+                r.update(mean, np.diag(std**2), np.array(1.0))
+        lo1, hi1, lo2, hi2 = (np.array(r1.lower, float), np.array(r1.upper, float), np.array(r2.lower, float), np.array(r2.upper, float))
+        slack = 0 if rng.random() < 0.5 else float(scale * 10 ** rng.uniform(-2, -0.5))
+        lo, hi = G.rect_covered_margin(W, lo1, hi1, lo2, hi2, slack)
+        mag = float(max(np.abs(lo1).max(), np.abs(hi1).max(), np.abs(lo2).max(), np.abs(hi2).max()))
+        case = {"kind": "rect", "cone": label, "W": W, "lo1": lo1, "hi1": hi1, "lo2": lo2, "hi2": hi2, "slack": slack, "mode": f"history-step{step}"}
+        e0 = P.NATURAL_SOLVER_ERRORS[0]
+        try:
+            ans = call_real(order, r1, r2, slack, "dispatch")
+        except Exception as e:
+            mon.violation(P.crash_mechanism(e), f"is_covered raised {e!r}", case)
+            return
+        mon.count("history_events")
+        P.judge(mon, "C10", "rect.is_covered", ans, lo, hi, P.band("rect", mag, fallback=P.NATURAL_SOLVER_ERRORS[0] > e0), case,
+                case_hash("hist", W, lo1, hi1, lo2, hi2, slack), f"history/{label}/{'iter' if it else 'plain'}")
+
+
 def forced_fallback_channel(mon, rng, n):
     """INFORMATIONAL ONLY (never a violation): the first solve() of each problem is made to raise SolverError so the
     `except SolverError: prob.solve(solver=SCS)` path and its status mapping are exercised; wrong decisions are counted
@@ -193,6 +229,8 @@ def shard(mon, tier, rng, shard_no, nshards):
             m = int(rng.choice([2, 2, 3, 4]))
             label, order = gen.random_order(rng, m)
             ell_case(mon, rng, label, order, m)
+        if i % 4 == 0:
+            history_case(mon, rng)
     if tier == "thorough":
         forced_fallback_channel(mon, rng, 60)
     mon.notes["solver_status_seen"] = dict(P.SOLVER_STATUS)
